@@ -96,9 +96,15 @@ func headExecutor(b rawBackend) client.HTTPRequestExecutor {
 
 var devNull, _ = os.OpenFile(os.DevNull, os.O_WRONLY, 0)
 
-// runEndpoint builds the endpoint with the default factory, mounts it and performs one request.
-// -> status, X-Krakend-Completed, Content-Type, body, panicked
-func runEndpoint(s epSpec) (status int, completed, ctype, raw string, panicked bool) {
+// mounted is one endpoint handler behind its router: serve performs one request against the SAME
+// handler instance (the backends answer what *cur says at that moment)
+type mounted struct {
+	serve func() (status int, completed, ctype, raw string, panicked bool)
+	done  func()
+}
+
+// mountEndpoint builds the endpoint with the default factory and mounts it once.
+func mountEndpoint(s epSpec, cur *[]rawBackend) mounted {
 	sc := config.ServiceConfig{Version: config.ConfigVersion, Timeout: 30 * time.Second, Host: []string{"http://127.0.0.1:8081"}}
 	ep := &config.EndpointConfig{Endpoint: "/x", Method: "GET", ExtraConfig: config.ExtraConfig(s.epx)}
 	for i, b := range s.bs {
@@ -115,7 +121,11 @@ func runEndpoint(s epSpec) (status int, completed, ctype, raw string, panicked b
 	bf := func(be *config.Backend) proxy.Proxy {
 		for i := range s.bs {
 			if be.URLPattern == fmt.Sprintf("/b%d", i) {
-				return proxy.NewHTTPProxyWithHTTPExecutor(be, headExecutor(s.bs[i]), be.Decoder)
+				i := i
+				exec := func(ctx context.Context, req *http.Request) (*http.Response, error) {
+					return headExecutor((*cur)[i])(ctx, req)
+				}
+				return proxy.NewHTTPProxyWithHTTPExecutor(be, exec, be.Decoder)
 			}
 		}
 		panic("unknown backend")
@@ -125,23 +135,18 @@ func runEndpoint(s epSpec) (status int, completed, ctype, raw string, panicked b
 	if err != nil {
 		panic(err)
 	}
-	rec := httptest.NewRecorder()
-	req := httptest.NewRequest("GET", "/x", nil)
-	defer func() {
-		if r := recover(); r != nil {
-			status, completed, ctype, raw, panicked = 0, "panic", "", "", true
-		}
-	}()
-	serve := func(e mux.Engine, hf mux.HandlerFactory) {
+	var handler http.Handler
+	done := func() {}
+	muxEngine := func(e mux.Engine, hf mux.HandlerFactory) {
 		e.Handle("/x", "GET", hf(ep, p))
-		e.ServeHTTP(rec, req)
+		handler = e
 	}
 	switch s.router {
 	case "Gin", "GinMsg":
 		var e *gin.Engine
 		if s.router == "GinMsg" {
 			e = ginEngine(true)
-			defer ginEngine(false)
+			done = func() { ginEngine(false) }
 		} else {
 			e = gin.New()
 		}
@@ -155,19 +160,19 @@ func runEndpoint(s epSpec) (status int, completed, ctype, raw string, panicked b
 			})
 		}
 		e.GET("/x", krakendgin.EndpointHandler(ep, p))
-		e.ServeHTTP(rec, req)
+		handler = e
 	case "Mux":
-		serve(mux.DefaultEngine(), mux.EndpointHandler)
+		muxEngine(mux.DefaultEngine(), mux.EndpointHandler)
 	case "Chi":
 		r := chi.NewRouter()
 		r.Get("/x", krakendchi.NewEndpointHandler(ep, p))
-		r.ServeHTTP(rec, req)
+		handler = r
 	case "Gorilla":
 		c := gorilla.DefaultConfig(pf, logging.NoOp)
-		serve(c.Engine, c.HandlerFactory)
+		muxEngine(c.Engine, c.HandlerFactory)
 	case "Treemux":
 		c := httptreemux.DefaultConfig(pf, logging.NoOp)
-		serve(c.Engine, c.HandlerFactory)
+		muxEngine(c.Engine, c.HandlerFactory)
 	case "Negroni":
 		// negroni.Classic() logs every request on the stdout it sees when it is built
 		saved := os.Stdout
@@ -176,11 +181,29 @@ func runEndpoint(s epSpec) (status int, completed, ctype, raw string, panicked b
 		}
 		c := negroni.DefaultConfig(pf, logging.NoOp, nil)
 		os.Stdout = saved
-		serve(c.Engine, c.HandlerFactory)
+		muxEngine(c.Engine, c.HandlerFactory)
 	default:
 		panic("unknown router " + s.router)
 	}
-	return rec.Code, rec.Header().Get("X-Krakend-Completed"), rec.Header().Get("Content-Type"), rec.Body.String(), false
+	serve := func() (status int, completed, ctype, raw string, panicked bool) {
+		rec := httptest.NewRecorder()
+		req := httptest.NewRequest("GET", "/x", nil)
+		defer func() {
+			if r := recover(); r != nil {
+				status, completed, ctype, raw, panicked = 0, "panic", "", "", true
+			}
+		}()
+		handler.ServeHTTP(rec, req)
+		return rec.Code, rec.Header().Get("X-Krakend-Completed"), rec.Header().Get("Content-Type"), rec.Body.String(), false
+	}
+	return mounted{serve, done}
+}
+
+// runEndpoint: one fresh handler, one request.
+func runEndpoint(s epSpec) (status int, completed, ctype, raw string, panicked bool) {
+	m := mountEndpoint(s, &s.bs)
+	defer m.done()
+	return m.serve()
 }
 
 // ginEngine builds the engine the way the gin router does; return_error_msg is a package level
@@ -228,6 +251,33 @@ type endpointGen struct {
 
 func (g endpointGen) emitEndpoint(kind string, s epSpec) {
 	st, comp, ct, raw, _ := runEndpoint(s)
+	g.emitObserved(kind, s, nil, st, comp, ct, raw)
+}
+
+// emitSequence mounts the endpoint once and sends it one request per step of seq (the replies of
+// the backends for that step): every answer is a case of its own, the handler instance is shared.
+func (g endpointGen) emitSequence(kind string, s epSpec, seq [][]reply) {
+	cur := append([]rawBackend(nil), s.bs...)
+	m := mountEndpoint(s, &cur)
+	defer m.done()
+	var history []interface{}
+	for _, step := range seq {
+		for i := range cur {
+			cur[i].r = step[i]
+		}
+		st, comp, ct, raw, _ := m.serve()
+		ss := s
+		ss.bs = append([]rawBackend(nil), cur...)
+		g.emitObserved(kind, ss, append([]interface{}{}, history...), st, comp, ct, raw)
+		var codes []int
+		for _, r := range step {
+			codes = append(codes, r.code)
+		}
+		history = append(history, map[string]interface{}{"backend_statuses": codes, "answered": st, "completed": comp})
+	}
+}
+
+func (g endpointGen) emitObserved(kind string, s epSpec, history []interface{}, st int, comp, ct, raw string) {
 	o, oj := cobsTerm(st, comp, ct, raw)
 	var bl []string
 	var bj []interface{}
@@ -244,9 +294,12 @@ func (g endpointGen) emitEndpoint(kind string, s epSpec) {
 	term := emit.App("CEndpoint", s.routerCoq(), emit.StrList(s.prior), emit.Obj(orEmpty(s.epx)), bl[0], emit.List(bl[1:]), o, emit.Str(raw))
 	js := map[string]interface{}{"level": "endpoint", "kind": kind, "router": s.router, "prior_gin_errors": s.prior,
 		"endpoint_extra_config": fmt.Sprintf("%#v", s.epx), "backends": bj, "observed": oj}
+	if history != nil {
+		js["earlier_requests_on_this_handler"] = history
+	}
 	g.w.Count("level:endpoint:" + kind)
 	g.w.Count("router:" + s.router)
-	canon := fmt.Sprintf("E|%s|%s|%q|%#v|%s", kind, s.router, s.prior, s.epx, jsonText(bj))
+	canon := fmt.Sprintf("E|%s|%s|%q|%#v|%s|%s", kind, s.router, s.prior, s.epx, jsonText(bj), jsonText(history))
 	g.w.Add(compact(term), js, "", canon, nontrivial)
 }
 
@@ -385,6 +438,32 @@ func (g endpointGen) run() {
 					be.Decoder = encoding.GetRegister().Get(strings.ToLower(be.Encoding))(be.IsCollection)
 					p := proxy.NewHTTPProxyWithHTTPExecutor(be, executor(rp), be.Decoder)
 					g.emitProxyEnc(e.name, e.coll, x, rp, p)
+				}
+			}
+		}
+	}
+
+	// ---- proxy level: other spellings of the registered encoding names; the backend comes out of
+	//      config.ServiceConfig.Init (decoder looked up under the lower-cased name), the proxy
+	//      compares the exact name ----
+	for ni, name := range []string{"JSON", "Json", "SafeJSON", "SAFEJSON", "String", "STRING", "No-Op", "NO-OP", "no-Op", "Xml", "noop", "no_op", "no-op "} {
+		for _, x := range threeModes {
+			for ci, code := range []int{200, 503, 404, 201} {
+				for _, b := range []int{0, 1, 6, 7} {
+					if !cfg.Thorough() && ci >= 2 {
+						continue
+					}
+					rp := reply{code, encBodies[b].body, encBodies[b].enc}
+					sc := config.ServiceConfig{Version: config.ConfigVersion, Timeout: 30 * time.Second, Host: []string{"http://127.0.0.1:8081"}}
+					ep := &config.EndpointConfig{Endpoint: "/x", Method: "GET", Backend: []*config.Backend{
+						{URLPattern: "/b0", Encoding: name, IsCollection: ni == 0, ExtraConfig: config.ExtraConfig(x)}}}
+					sc.Endpoints = []*config.EndpointConfig{ep}
+					if err := sc.Init(); err != nil {
+						panic(err)
+					}
+					be := ep.Backend[0]
+					p := proxy.NewHTTPProxyWithHTTPExecutor(be, executor(rp), be.Decoder)
+					g.emitProxyEnc(be.Encoding, be.IsCollection, x, rp, p)
 				}
 			}
 		}
@@ -616,6 +695,64 @@ func (g endpointGen) run() {
 					bs[0], bs[1] = bs[1], bs[0]
 				}
 				g.emitEndpoint("multi-head", epSpec{router: rt, epx: []map[string]interface{}{nil, flatmaps[0]}[(mi+ci)%2], bs: bs})
+			}
+		}
+	}
+
+	// ---- one handler instance serving a history of requests: a complete answer first, then failing,
+	//      partial and error_<name> answers, complete ones in between (state kept by a handler across
+	//      requests would show as an answer that depends on the earlier ones) ----
+	failCodes := []int{503, 404, 302, 204, 500, 429, 101, 418}
+	replyFor := func(extra map[string]interface{}, i, step int, fails bool) reply {
+		if !fails {
+			return reply{200 + step%2, fmt.Sprintf(`{"k%d":%d,"o%d":{"x":[1,"two"]}}`, i, step, i), "application/json"}
+		}
+		fb := bodies[step%2]
+		tag := "MARKER"
+		switch rawMode(extra) {
+		case "error_code":
+			tag = "ERRCODE"
+		case "details":
+			tag = fmt.Sprintf("DETAILS%d", i)
+		}
+		return reply{failCodes[(step+i)%len(failCodes)], strings.ReplaceAll(fb.body, "MARKER", tag), fb.enc}
+	}
+	det := func(i int) map[string]interface{} {
+		return ns(map[string]interface{}{"return_error_details": fmt.Sprintf("n%d", i)})
+	}
+	reuseConfigs := [][]map[string]interface{}{
+		{nil}, {threeModes[1]}, {det(0)},
+		{nil, nil}, {nil, threeModes[1]}, {det(0), nil}, {det(0), det(1)},
+	}
+	patterns := map[int][]int{1: {0, 1, 0, 1, 1, 0}, 2: {0, 2, 3, 0, 1, 2, 0}} // bit i: backend i fails at that step
+	for ri, rt := range []string{"Gin", "GinMsg", "Mux", "Chi", "Gorilla", "Treemux", "Negroni"} {
+		for ci, extras := range reuseConfigs {
+			n := len(extras)
+			epxs := []map[string]interface{}{nil}
+			if rt == "Gin" || rt == "Mux" {
+				epxs = append(epxs, epNS(staticCfg("incomplete", staticData)))
+				if n > 1 {
+					epxs = append(epxs, flatmaps[0])
+				}
+			}
+			for ei, epx := range epxs {
+				var bs []rawBackend
+				for _, x := range extras {
+					bs = append(bs, rawBackend{extra: x})
+				}
+				var seq [][]reply
+				for step, mask := range patterns[n] {
+					var rs []reply
+					for i, x := range extras {
+						rs = append(rs, replyFor(x, i, step, mask&(1<<i) != 0))
+					}
+					seq = append(seq, rs)
+				}
+				var prior []string
+				if strings.HasPrefix(rt, "Gin") {
+					prior = priors[(ri+ci+ei)%3]
+				}
+				g.emitSequence("handler-reuse", epSpec{router: rt, prior: prior, epx: epx, bs: bs}, seq)
 			}
 		}
 	}
